@@ -32,6 +32,10 @@ type mockTree struct {
 	ncalls  int
 	leafref map[string]string // canonical path → canonical target path for FollowLeafRef
 	hash    bool              // deterministic hash-valued tree shared with the Lean driver (Drv/C02.lean)
+	// a tree that keeps its entries: following a leafref from one place yields the same entry every time, and that entry
+	// hands out the path it stores, not a copy (what an engine appends to it stays there)
+	keeps   bool
+	targets map[string]*mockEntry
 }
 
 func hashStr(s string) uint32 {
@@ -176,12 +180,27 @@ func (e *mockEntry) FollowLeafRef() (xpath.Entry, error) {
 			tgt.Elem = append(tgt.Elem, pe.DeepCopy())
 		}
 	}
+	if e.t.keeps {
+		if e.t.targets == nil {
+			e.t.targets = map[string]*mockEntry{}
+		}
+		k := canonPath(e.path)
+		if have, ok := e.t.targets[k]; ok {
+			return have, nil
+		}
+		ne := &mockEntry{t: e.t, path: tgt}
+		e.t.targets[k] = ne
+		return ne, nil
+	}
 	return &mockEntry{t: e.t, path: tgt}, nil
 }
 
 func (e *mockEntry) GetSdcpbPath() *sdcpb.Path {
 	if e.path == nil {
 		return &sdcpb.Path{}
+	}
+	if e.t.keeps {
+		return e.path
 	}
 	return e.path.DeepCopy()
 }
